@@ -33,7 +33,7 @@ P = {
          'Enumerates single faults over request positions x kinds and hook failures, multi-fault sequences and mixed healthy/failing certificate sets; monitors: daemon alive, exactly one post-operation per attempt, truthful is_success/status, >= 1 s between a failed attempt and the next, bounded steps, healthy certificates still issued.',
          'Attempts are delimited by directory fetches at the mock CA; timing clause uses CLOCK_MONOTONIC of hookrec and mockca.', '4/C07'),
  'C08': (FE, 'per-URL transmission counting and nonce-chain monitor at the mock CA against the scripted fault plan',
-         'Enumerates POST position x 26 error types x run lengths; oracle: transmissions = min(r+1,10) iff recoverable else 1, retransmission uses the nonce of the immediately preceding response and identical url/payload, outcome per model, polls <= 20.',
+         'Enumerates POST position x 26 error types x run lengths, runs mixing error types, errors carrying Retry-After; oracle: transmissions go on while the answers are recoverable errors up to 10 in all, retransmission uses the nonce of the immediately preceding response and identical url/payload, outcome per model, polls <= 20.',
          'Trusts the mock CA transmission bookkeeping.', '4/C08'),
  'C09': (EX, 'sliding-window monitor over limiter call/return instants (probe, sound bracket) and over request arrivals at the mock CA',
          'Limit sets of 1..3 limits with burst/steady/contending callers sharing one endpoint lock exactly as the daemon does; definite violation only when return[i+n]-call[i] < period; bounded-progress clause for admission.',
@@ -45,31 +45,31 @@ P = {
          'All histories up to length 3 and random ones up to 6 over one account on 1..3 CAs; oracle: newAccount only when justified, CA record = configuration after each renewal, key roll-over signed by the key on record; account save/load round trips for all shapes; every truncation prefix must refuse to start.',
          'Trusts the mock CA account table.', '4/C11'),
  'C12': (EX, 'stress schedules (shared accounts/endpoints, seeded response and hook delays, worker counts) with deadlock watchdog, registration-count and nonce-ledger monitors',
-         '2..8 certificates over 1..3 accounts and CAs, all due at once, with concurrent first registration / forgotten accounts / pending changes; distinct request interleavings observed are counted.',
+         '2..8 certificates over 1..3 accounts and CAs, all due at once, with concurrent first registration / forgotten accounts (also forgotten again while orders arrive) / pending changes, occasional slow answers; registrations counted per configured account and endpoint, unknown-account answers bounded per attempt; distinct request interleavings observed are counted.',
          'No true parallelism between renewal futures exists in acmed (single block_on); interleavings arise at await points and are moved by delays.', '4/C12'),
  'C13': (EX, 'stat() monitors in file-post-create/edit hooks and after the attempt over generated mode/owner/umask configurations',
-         'Modes x umask x user/group (name, number, unset) for key, certificate and account files, creation then rewrite; probe sweeps for the storage layer.',
+         'Modes x umask x user/group (name, number, unset) for key, certificate and account files, creation then rewrite, single-file and split configurations, set-group-ID directories and files left with a foreign owner; probe sweeps for the storage layer.',
          'Runs as root so chown to arbitrary ids works.', '4/C13'),
  'C14': (EX, 'probe dump of the effective configuration vs independent resolver over the raw TOML files',
          'Generated configuration trees: all presence patterns of each setting at three levels, include graphs with globs/duplicates/cycles, every global option split over files, dangling references and duplicate ids.',
          'Resolver implements the man page; table-valued globals judged only where replace and merge agree.', '4/C14'),
  'C15': (EX, 'differential monitor: acme_common public API vs values recomputed from hand-parsed SPKI and an independent verifier, by volume',
-         'Tens of thousands of fresh keys per EC/EdDSA type, hundreds of RSA keys; rare encodings (leading-zero coordinates, short R/S) counted and required to occur.',
+         'Tens of thousands of fresh keys per EC/EdDSA type, hundreds of RSA keys, every fourth key made by OpenSSL alone and loaded from PEM/DER (RSA exponents other than 65537); rare encodings (leading-zero coordinates, short R/S) counted and required to occur.',
          'Trusts OpenSSL SPKI export and verification.', '4/C15'),
  'C16': (EX, 'real tacd instances probed by an OpenSSL client of the harness; certificate fields parsed from DER',
          'Random domains (ASCII, IDN, mixed case), digests rendered through the daemon own proof format, 7 key types x 3 digests, TCP/unix listeners, flag/file/stdin inputs, ALPN lists of every shape.',
          'Trusts OpenSSL client handshake reporting; Python punycode for expected names.', '4/C16'),
  'C17': (FE, 'hostile connection histories against the shipped-profile tacd followed by a valid handshake; process liveness monitor',
-         'Enumerates ordered selections of up to 4 behaviours from the catalogue (thorough: all 2800), TCP and unix listeners, each followed by a valid acme-tls/1 handshake judged by the C16 oracle.',
+         'Enumerates ordered selections of up to 4 behaviours from the catalogue (thorough: all 2800), plus abortive closes, odd server names, 40 clients silent for 6.5-35 s and descriptor shortages (responder under RLIMIT_NOFILE 64), TCP and unix listeners, each followed by a valid acme-tls/1 handshake judged by the C16 oracle.',
          'Uses the release profile with panic=abort exactly as shipped.', '4/C17'),
  'C18': (EX, 'TLS-wrapped mock CA observing completed handshakes/requests under generated trust configurations',
-         'Combinations of the three root sources x server chains (valid, unlisted root, other name, expired, not yet valid) x URL by name/IP x root file states; oracle: a request reaches the CA iff the chain is valid under system store + configured roots.',
+         'Combinations of the three root sources x server chains (valid, unlisted root, other name, expired, not yet valid) x URL by name/IP x root file states, CA bundles named in the hooks\' environment tables, root files withdrawn or replaced while the daemon runs; oracle: a request reaches the CA iff the chain is valid under system store + the roots given at that time.',
          'System trust store assumed not to contain the harness roots.', '4/C18'),
  'C19': (EX, 'configuration fuzzing/mutation with crash, hang and exit-status monitors; period parser vs bignum reference',
          'Field-by-field mutations of valid configurations, structural hazard catalogue (group cycles, include cycles, zero/huge rate limits, overflowing periods), random period strings against an independent parser.',
          'Hang detection relies on the capped limiter sleep of the verification feature.', '4/C19'),
  'C20': (EX, 'mock CA in validating mode (real http-01 file read, real acme-tls/1 handshake) + leftover monitors, default paths exercised in a private mount namespace',
-         'Each shipped hook group alone and with git, identifiers of 1..3 labels, 1..3 consecutive issuances, every subset of the documented environment variables set/defaulted.',
+         'Each shipped hook group alone and with git, identifiers of 1..3 labels, 1..3 consecutive issuances, every subset of the documented environment variables set/defaulted, restrictive umasks, validators holding an idle connection or limited to TLS 1.2, http-01 proofs met again after an attempt that broke off.',
          'unshare -m available as root; /etc/hosts override for the default TACD_HOST.', '4/C20'),
 }
 
